@@ -35,14 +35,16 @@ type jobRef struct {
 	Modifiable bool
 	MEV        bool
 	Raw        []byte // store value right after creation
-	Execs      int
+	Execs      int // successful executions
+	Fails      int // failed executions
 }
 
 // request: one create or execute request. JSON-serialisable (goes to the op log / witnesses).
 type request struct {
 	Kind   string `json:"kind"`   // create | exec
 	Path   string `json:"path"`   // tx | handler | wasm | wasm-legacy
-	Caller string `json:"caller"` // principal name
+	Caller string `json:"caller"` // principal name (the creator of the message / the calling contract)
+	Signer string `json:"signer,omitempty"` // tx path: somebody else (holding the caller's fee grant) signs
 	JobID  string `json:"job_id"`
 
 	// create
